@@ -316,7 +316,7 @@ func checkRelocate(w *core.Worker, rr *core.Rand, u []byte, big []byte) {
 		finding = "D16"
 	}
 	fail := func(cls, what string, d map[string]any) {
-		w.Fail(cls, func() *core.Violation {
+		w.FailF(cls, finding, func() *core.Violation {
 			if d == nil {
 				d = map[string]any{}
 			}
